@@ -310,6 +310,15 @@ def check_handshake_help(cls_name, width, pool_name="P", lines=None):
                     fails.append({"kind": "monitor", "monitor": "help-not-described", "line": line, "detail": r[0][:200]})
                 if cmd and cmd not in r[0]:
                     fails.append({"kind": "monitor", "monitor": "help-not-described", "line": line, "detail": r[0][:200]})
+                # the help of a command describes the member of THIS class: every parameter of it shows up
+                if cmd and kind == "help" and cmd in ctx["cmds"]:
+                    text = " ".join(r[0].split())
+                    for prm in ctx["cmds"][cmd].get("params", []):
+                        shown = ("--" + prm["name"].replace("_", "-")) if prm["kind"] in ("opt", "flag") else prm["name"]
+                        if shown not in text:
+                            fails.append({"kind": "monitor", "monitor": "help-lacks-a-parameter", "line": line,
+                                          "detail": {"parameter": prm["name"], "help": r[0][:200]}})
+                            break
                 want = {"kind": "help", "of": ctx["cmds"][cmd]["name"] if cmd else None}
                 if v != want:
                     fails.append({"kind": "diff", "what": "verdict of a help request", "line": line, "model": rv, "impl": "help"})
